@@ -514,6 +514,47 @@ func runC14(c *Ctx) {
 		}
 		sort.Strings(bad)
 		c.verdict(len(bad) == 0, construct, c.P.Pos(fn.Pos()), fmt.Sprintf("%d processBatch call(s); success is returned only behind io.EOF or position > end", len(pb)), join(bad), sites...)
+		// ... and the importer itself says "no further batch" (returns io.EOF
+		// of its own, not the source's) only for a position past the
+		// inclusive end of what the iterator covers
+		for _, name := range []string{"(*chainimport.headersImport).processBatch", fnAppendNH} {
+			g := c.P.Func(name)
+			if g == nil {
+				continue
+			}
+			var own []ssa.Instruction
+			for _, in := range find(g, isExit) {
+				r := in.(*ssa.Return)
+				if len(r.Results) > 0 && isEOF(r.Results[len(r.Results)-1]) {
+					own = append(own, in)
+				}
+			}
+			if len(own) == 0 {
+				continue
+			}
+			isItEnd := func(v ssa.Value) bool {
+				call, ok := ir.Strip(v).(*ssa.Call)
+				if !ok {
+					return false
+				}
+				if call.Call.IsInvoke() {
+					return call.Call.Method.Name() == "GetEndIndex"
+				}
+				f := call.Call.StaticCallee()
+				return f != nil && f.Name() == "GetEndIndex"
+			}
+			end2 := func(v ssa.Value) bool { return isItEnd(v) || (g == fn && isEnd(v)) }
+			past2, odd2 := relGuard("position > the iterator's inclusive end", g, func(v ssa.Value) bool { return !end2(v) }, end2, token.GTR)
+			construct2 := c.nm(g) + " | io.EOF of its own only past the inclusive end"
+			if len(odd2) > 0 {
+				c.fail(construct2, c.at(own[0]), "a position is compared with the iterator's inclusive end index by "+join(odd2)+": the batch that starts at the last index is reported as the end of the source and its header is never written")
+				continue
+			}
+			// (handing on the source's own io.EOF, tested for just before, is
+			// the other way)
+			fromSrc := equalIs("the source's error == io.EOF", find(g, binops(eqOps, isEOF, func(ssa.Value) bool { return true })), true)
+			c.guarded(g, unionGuard("position > the iterator's inclusive end, or io.EOF from the source", past2, fromSrc), 1, "return io.EOF", own, 1, gDominate)
+		}
 	})
 
 	c.rule("C14.V4", "repeating an import changes nothing: the regions of an Import call are worked out from the target stores as they are in that call - in determineProcessingRegions the two tip heights (the ones handed to determineDivergenceSyncModes and used for the region bounds) are the height results of TargetBlockHeaderStore.ChainTip() and TargetFilterHeaderStore.ChainTip() called there, on every path; tips remembered from an earlier call make a second Import on the same importer append the same headers again", func() {
